@@ -35,6 +35,30 @@ def call_graph(u):
                 if ch[-1] == 'write':
                     writers.setdefault(name, []).append(cast.where(x))
         g[name] = callees
+    # helpers that did not exist when the rule was written are part of their callers (the gate is looked for where the
+    # rule knows it: in the functions of the frozen table)
+    known = sym.KNOWN_FUNCTIONS()
+    new = set(n for n in g if n not in known)
+
+    def expand(name, seen=()):
+        cs, ws = set(), []
+        for c in g.get(name, ()):
+            if c in new and c not in seen:
+                c2, w2 = expand(c, seen + (c,))
+                cs |= c2
+                ws += w2
+            else:
+                cs.add(c)
+        return cs, ws + writers.get(name, [])
+    g2, w2 = {}, {}
+    for name in g:
+        if name in new:
+            continue
+        cs, ws = expand(name)
+        g2[name] = cs
+        if ws:
+            w2[name] = ws
+    g, writers = g2, w2
     return g, writers
 
 
